@@ -83,8 +83,7 @@ PROPS = {
 PROPS["C18"] = dict(
     level="other",
     explanation="cloudevents FormatterFilter.Process / validate / sign / Rotate executed symbolically over all configurations (source nil/empty/set, schema nil/empty/set, arbitrary format string, signer absent/succeeding/failing, <=T listed types, predicate absent/true/false/error) and payload kinds (plain, ID, Data, both); json.Encoder.Encode, base64 and url.URL.String are uninterpreted/deterministic functions, so 'serialized is the exact unsigned document' and 'signer saw exactly those bytes' are term equalities decided by z3.",
-    jobs=[dict(pkg="./formatter_filters/cloudevents", harness=["cloudevents/cloudevents.go"], entries=r"^H_C18_(Process|Rotate|two_events)$", params=dict(quick=dict(T=1), thorough=dict(T=3)), shards=dict(quick=8, thorough=16)),
-          dict(pkg="./formatter_filters/cloudevents", harness=["cloudevents/cloudevents.go"], entries=r"^H_C18_sign_listing$", params=dict(quick=dict(T=1), thorough=dict(T=1)), solver="cvc5", strint=False, no_crosscheck=True)],
+    jobs=[dict(pkg="./formatter_filters/cloudevents", harness=["cloudevents/cloudevents.go"], entries=r"^H_C18_", params=dict(quick=dict(T=1), thorough=dict(T=3)), shards=dict(quick=8, thorough=16))],
     must_reach=["C18.invalid", "C18.emptyid", "C18.ok-signed", "C18.ok-unsigned", "C18.error", "C18.rotate", "C18.two.end", "C18.listing.end"],
     bounds=dict(quick="SignEventTypes <= 1", thorough="SignEventTypes <= 3"),
     assumptions=["event type non-empty (only such events come from Broker.Send)", "JSON text validity is trusted encoding/json", "url.URL.String modelled for path-only URLs as the path"],
